@@ -57,6 +57,14 @@ let check (case : Sexp.t) (res : Sexp.t) : [ `Ok | `Mismatch of string | `Proper
           else (`Ok, true)
         | L [ A "stuck"; _ ], L [ A "stuck"; _ ] -> (`Ok, true)
         | A "noeval", A "noeval" -> (`Ok, true)
+        | L [ A "value"; _ ], L [ A "stuck"; sv ] ->
+          (* recorded finding D7: the rewritten program is stuck on a variable of an enclosing group whose
+             definition is a VALUE that comes later (a reordered function now follows a non-value definition that
+             uses it; the definition-order check treats value definitions as always available) *)
+          let sg = (match C01.stuck_var (term_of_sexp sv) [] with
+              | Some (Some d) when is_value d -> " sig=D7-definition-not-yet-available"
+              | _ -> "") in
+          (`Property ("the rewrite (" ^ tag ^ ") turns a value into a stuck term" ^ sg), true)
         | _ -> (`Property ("the rewrite (" ^ tag ^ ") turns a value into a stuck term or vice versa"), true))
      | L [ A "accepted"; tya; _ ], L (A "rejected" :: _ :: rest) ->
        (* recorded finding D15: the named subexpression's reported type contains an unsolved hole;
